@@ -27,6 +27,9 @@ pub enum FOp {
     RemoveSubtree(usize),
     /// serde_json round trip (engine built with `deser`)
     RoundTrip,
+    /// remove / remove_subtree of a node whose payload's destructor panics (the call unwinds)
+    RemoveBomb(usize),
+    RemoveSubtreeBomb(usize),
 }
 
 impl FOp {
@@ -40,6 +43,8 @@ impl FOp {
             FOp::Remove(x) => format!("remove {}", x + 1),
             FOp::RemoveSubtree(x) => format!("remove_subtree {}", x + 1),
             FOp::RoundTrip => "serde_round_trip".into(),
+            FOp::RemoveBomb(x) => format!("remove {} (its payload's destructor panics)", x + 1),
+            FOp::RemoveSubtreeBomb(x) => format!("remove_subtree {} (its payload's destructor panics)", x + 1),
         }
     }
 }
@@ -50,6 +55,8 @@ pub struct FState {
     /// per slot the id most recently *issued* for it
     pub cur: Vec<NodeId>,
     pub allocs: usize,
+    /// destructor-bomb operations enabled (C01 only)
+    pub bombs: bool,
 }
 
 fn key(s: &FState) -> u128 {
@@ -91,6 +98,10 @@ fn enabled(s: &FState, n_max: usize, a_max: usize) -> Vec<FOp> {
             v.push(FOp::Detach(x));
             v.push(FOp::Remove(x));
             v.push(FOp::RemoveSubtree(x));
+            if s.bombs {
+                v.push(FOp::RemoveBomb(x));
+                v.push(FOp::RemoveSubtreeBomb(x));
+            }
         }
     }
     if cfg!(feature = "it-deser") {
@@ -132,6 +143,23 @@ fn apply(s: &FState, op: FOp) -> (FState, Outcome) {
             Err(m) => Outcome::Panic(m),
         },
         FOp::RoundTrip => ops::apply(&mut n.arena, &s.cur, ops::Op::RoundTrip, &[]),
+        FOp::RemoveBomb(x) | FOp::RemoveSubtreeBomb(x) => {
+            // arm the bomb for this node's payload value (payload values are unique per allocation)
+            let v = guarded(|| s.arena[s.cur[x]].get().0).ok();
+            crate::payload::set_bomb(v);
+            let r = guarded(|| {
+                if matches!(op, FOp::RemoveBomb(_)) {
+                    s.cur[x].remove(&mut n.arena)
+                } else {
+                    s.cur[x].remove_subtree(&mut n.arena)
+                }
+            });
+            crate::payload::set_bomb(None);
+            match r {
+                Ok(()) => Outcome::Unit,
+                Err(m) => Outcome::Panic(m),
+            }
+        }
     };
     if let Outcome::Id(id) = &out {
         let x = slot_of(*id);
@@ -166,7 +194,7 @@ pub struct FreeReport {
 /// Judges that need no model: J01 (C01), J02 + finite repeat-free iterators from every node the
 /// arena reports live (C02).
 fn judge(s: &FState, target: Props) -> (Vec<Failure>, bool) {
-    let obs = match guarded(|| obs::observe(&s.arena)) {
+    let obs = match guarded(|| if s.bombs { obs::observe_tolerant(&s.arena) } else { obs::observe(&s.arena) }) {
         Ok(o) => o,
         Err(m) => {
             return (vec![Failure {
@@ -236,10 +264,11 @@ fn judge(s: &FState, target: Props) -> (Vec<Failure>, bool) {
     (out, sound)
 }
 
-pub fn explore(n_max: usize, a_max: usize, target: Props, threads: usize, deadline: Option<Instant>) -> FreeReport {
+pub fn explore(n_max: usize, a_max: usize, target: Props, threads: usize, deadline: Option<Instant>, bombs: bool) -> FreeReport {
     let t0 = Instant::now();
     let pool = rayon::ThreadPoolBuilder::new().num_threads(threads.max(1)).build().unwrap();
-    let init = FState { arena: Arena::new(), cur: Vec::new(), allocs: 0 };
+    // destructor bombs only where the judge is about links alone (C01)
+    let init = FState { arena: Arena::new(), cur: Vec::new(), allocs: 0, bombs };
     let mut seen: HashSet<u128> = HashSet::new();
     seen.insert(key(&init));
     // (parent index, op) per state for path reconstruction
